@@ -280,12 +280,12 @@ PROPS = {
                    "is derived by the Gambit reader) is NOT decided: clap / serde / gambit-parser code is abstracted. Game::solve is assumed to succeed.",
         verus=[U("c16_main_slice", ["C15.V.main.own_payoffs", "C15.V.output.zero_probability_actions_omitted", "C16.V.main.prints_what_the_options_select"]),
                U("c15_gambit_terminal", ["C15.V.gambit.terminal_payoff"]),
-               U("c15_gambit_constant_sum", ["C15.V.gambit.constant_sum_leaf (the analysed quantity at a leaf is half the sum of the two players' collected payoffs; running min / max of it and of player one's payoff)", "C15.V.gambit.constant_sum_interior (interior outcomes are carried to every child, both players')", "C15.V.gambit.interior_payoff (the conversion adds an interior node's outcome, none for outcome 0)", "C15.V.gambit.child_inherits_payoffs"]),
+               U("c15_gambit_constant_sum", ["C15.V.gambit.constant_sum_leaf (the analysed quantity at a leaf is half the sum of the two players' collected payoffs; running min / max of it and of player one's payoff)", "C15.V.gambit.constant_sum_interior (interior outcomes are carried to every child, both players')", "C15.V.gambit.interior_payoff (the conversion adds an interior node's outcome, none for outcome 0)", "C15.V.gambit.child_inherits_payoffs", "C15.V.gambit.offset_is_midpoint (the constant handed on is the midpoint of the smallest and largest half-sum)"]),
                U("lib_plumbing", ["C13.V.as_named.pairs_tables", "C01.V.get_info.pairs_tables"]),
                U("c13_action_iter_predicates", ["C13.V.action_iter.next_lists_positive"])],
         kani_functions=[],
         trusted_base=["uninterpreted float semantics", "the library calls of main() as uninterpreted functions of all their arguments (their own contracts: C01, C05, C13, C18)"],
-        not_decided=["process-level behaviour: exit status, one JSON object, input parsing", "the Gambit reader beyond the per-node steps of its constant-sum analysis and of the payoff accumulation (c15_gambit_constant_sum): the work-list loops, the midpoint `min + (max - min) / 2` (pinned textually), the constant-sum test, infoset naming, action sorting", "independent re-evaluation of the printed strategies on the file's game"],
+        not_decided=["process-level behaviour: exit status, one JSON object, input parsing", "the Gambit reader beyond the per-node steps of its constant-sum analysis and of the payoff accumulation (c15_gambit_constant_sum): the work-list loops, the constant-sum test, infoset naming, action sorting", "independent re-evaluation of the printed strategies on the file's game"],
     ),
     "C16": dict(
         level="proof",
@@ -298,6 +298,7 @@ PROPS = {
                    "the same game give the same solution' are NOT decided (reader code abstracted); validity of the printed profile is C05 / C18.",
         verus=[U("c16_main_slice", ["C16.V.main.prints_what_the_options_select", "C16.V.discount.into_params"]),
                U("c15_gambit_terminal", ["C15.V.gambit.terminal_payoff (a Gambit leaf gets the zero-sum payoff the JSON encoding of the same game states)"]),
+               U("c15_gambit_constant_sum", ["C15.V.gambit.offset_is_midpoint", "C15.V.gambit.constant_sum_leaf", "C15.V.gambit.constant_sum_interior", "C15.V.gambit.interior_payoff", "C15.V.gambit.child_inherits_payoffs"]),
                U("c18_truncate_whole", ["C18.V.truncate.whole"]), U("c18_truncate_sums_to_one", ["C18.V.truncate.sums_to_one (what is printed after clipping is a valid profile)"])],
         kani_functions=[],
         trusted_base=["uninterpreted float semantics", "the library calls of main() as uninterpreted functions of all their arguments"],
